@@ -637,6 +637,38 @@ class World:
         self.raw.decref(r)
         return ('release-at-zero',)
 
+    def s_tight(self):
+        """Connectives on a manager whose documented limit `max_nodes`
+        leaves room for only a few more nodes: each either is refused
+        with "full" (and everything stays as it was, up to unreferenced
+        nodes) or returns the right function."""
+        if self.kind != 'bdd' or self.reordering:
+            return ('tight-skip',)
+        old = self.raw.max_nodes
+        log = []
+        for _ in range(4):
+            sym = self.rng.choice(BIN_SYMS)
+            a, b = self.pick(), self.pick()
+            top = max(self.raw._succ)
+            room = self.rng.randint(1, 4)
+            self.raw.max_nodes = self.rng.choice(
+                [self.raw._min_free + room, top + 1 + room])
+            try:
+                h = self.bdd.apply(sym, a.h, b.h)
+            except RuntimeError as e:
+                if 'full' not in str(e):
+                    raise
+                self.ctx.count('refused_for_lack_of_room')
+                log.append((sym, 'full'))
+                continue
+            finally:
+                self.raw.max_nodes = old
+            want = getattr(self.sp, BINOPS[sym])(a.tt, b.tt)
+            self.ctx.count('computed_with_little_room')
+            self.accept('apply', h, want, strict=True)
+            log.append((sym, 'computed'))
+        return ('tight', log)
+
     def s_rearm(self):
         """Dynamic reordering: release most references, collect, and
         enable reordering again, so that the growth threshold is low
